@@ -93,7 +93,7 @@ func GenFedInput(c *Ctx, i int, forC string) (FedInput, map[string]bool) {
 		spec.Priorities = p
 	}
 	g := &QGen{R: r, Schema: MonoSchema(), F: QFeat{Inline: true, Untyped: true, Named: r.Intn(3) != 0, Directives: r.Intn(3) != 0,
-		CompositeDirectives: r.Intn(4) == 0, AliasShadow: true, Typename: true, NodeRoot: r.Intn(5) == 0, RepeatKeys: r.Intn(6) == 0, Depth: 2 + r.Intn(3)}}
+		CompositeDirectives: r.Intn(4) == 0, AliasShadow: true, Typename: true, NodeRoot: r.Intn(5) == 0, RepeatKeys: r.Intn(6) == 0, ArgVars: true, Depth: 2 + r.Intn(3)}}
 	q := g.Query("")
 	in := FedInput{Spec: spec, StoreSeed: r.Int63n(1 << 30), OddIDs: r.Intn(5) == 0, Query: q, Vars: g.Vars}
 	feats := g.Feats
@@ -125,7 +125,7 @@ func (c01) Run(c *Ctx, i int) CaseResult {
 		return res
 	}
 	if fc.Invalid != "" {
-		res.Skipped = "invalid-query"
+		res.Skipped = "invalid-query:" + fc.Invalid
 		return res
 	}
 	if i >= len(FedCorpus) {
